@@ -264,7 +264,8 @@ Error String::_op_string(ModifyOp op, const char* str, size_t size) noexcept {
   }
 
   if (!size) {
-    return Error::kOk;
+    // Assigning an empty content must still replace the current content.
+    return op == ModifyOp::kAssign ? clear() : Error::kOk;
   }
 
   char* p = prepare(op, size);
@@ -288,7 +289,8 @@ Error String::_op_char(ModifyOp op, char c) noexcept {
 
 Error String::_op_chars(ModifyOp op, char c, size_t n) noexcept {
   if (!n) {
-    return Error::kOk;
+    // Assigning an empty content must still replace the current content.
+    return op == ModifyOp::kAssign ? clear() : Error::kOk;
   }
 
   char* p = prepare(op, n);
@@ -427,7 +429,8 @@ Error String::_op_hex(ModifyOp op, const void* data, size_t size, char separator
   const uint8_t* src = static_cast<const uint8_t*>(data);
 
   if (!size) {
-    return Error::kOk;
+    // Assigning an empty content must still replace the current content.
+    return op == ModifyOp::kAssign ? clear() : Error::kOk;
   }
 
   if (separator) {
